@@ -39,7 +39,7 @@ def run_table(ctx, table, config="std", tier=None, per=8192, spec_table=None, ex
     """harness table -> chunk files -> TLC judge.  Returns list of (prop, clause, row)."""
     tier = tier or ctx.tier
     d = ctx.work.fresh("table_%s_%s_" % (table, config), "d")
-    mode = ["ints"] if table == "ints" else ["table", table]
+    mode = [table] if table in ("ints", "serde") else ["table", table]
     out, dt = harness(config, mode + [d, tier, str(ctx.seed), str(per)], timeout=7200)
     info = json.loads(out.strip().splitlines()[-1])
     chunks, nrows = info["chunks"], info["rows"]
@@ -282,6 +282,21 @@ def c09(ctx):
                      "distinct_nontrivial = rows judged.")
 
 
+# ----------------------------------------------------------------------------- C19
+
+def c19(ctx):
+    d, f, n = run_table(ctx, "serde", config="serde", per=50000)
+    table_canary(ctx, d, "serde", lambda rows, rng: _corrupt_at(rows, rng, lambda r: r[0] == 0 and r[5] == 1 and r[2] == 0, 6))
+    finish_pure(ctx, "rows (third build of the harness: features serde + serde_repr): each integer type from every JSON integer "
+                     "0..65535, negatives, values above u16/u32/u63, floats, strings, arrays (serde_json::from_value) and through "
+                     "serde's primitive value deserializers; RawShortMessage from [s,d1,d2] over boundary bytes; ControlChange14Bit"
+                     "Message and ParameterNumberMessage from every combination of boundary field values; StructuredShortMessage from "
+                     "its natural representation for all 23 variants with in- and out-of-range fields; ShortMessageType -2..300; the "
+                     "natural representation (to_value) of valid values of every type deserialized and compared.  After a successful "
+                     "deserialization the panicking accessors are called.  Judged by TLC: ok => Valid, Valid => ok and equal.  "
+                     "distinct_nontrivial = rows judged.")
+
+
 def replay(ctx, path):
     """Re-judges the rows stored in a table replay file against the CURRENT code: the inputs of
     each stored row are re-run through the harness."""
@@ -301,4 +316,4 @@ def replay(ctx, path):
     return 1 if bad else 0
 
 
-PROPS = {"C01": c01, "C02": c02, "C03": c03, "C04": c04, "C05": c05, "C06": c06, "C09": c09}
+PROPS = {"C01": c01, "C02": c02, "C03": c03, "C04": c04, "C05": c05, "C06": c06, "C09": c09, "C19": c19}
